@@ -71,6 +71,11 @@ Definition collect_from (num : nat) (mine his : list hbs) : list hbs :=
 
 Definition set_fork_creator (s : vidx) (v : list hbs) (cr : nat) : list hbs :=
   fold_left (fun v b => hb_set v b (0, FORKM)) (nth cr (by_cr s) []) v.
+(* Engine.setForkDetected(before, branchID): creator of the branch, then every branch of that creator.
+   fillEventVectors calls it with the validator index n used as a branch id (branch n < nvals is
+   the first branch of validator n). *)
+Definition set_fork_detected (s : vidx) (v : list hbs) (branch : nat) : list hbs :=
+  set_fork_creator s v (nth branch (br_cr s) 0%nat).
 Definition is_empty (v : list hbs) b := let x := hb_get v b in negb (is_fork x) && (fst x =? 0).
 
 Definition detect_forks (s : vidx) (v : list hbs) : list hbs :=
@@ -78,14 +83,14 @@ Definition detect_forks (s : vidx) (v : list hbs) : list hbs :=
   let v1 := fold_left (fun v n =>
       let brs := nth n (by_cr s) [] in
       if Nat.leb (length brs) 1 then v
-      else if existsb (fun b => is_fork (hb_get v b)) brs then set_fork_creator s v n else v)
+      else if existsb (fun b => is_fork (hb_get v b)) brs then set_fork_detected s v n else v)
     (List.seq 0 (nvals s)) v in
   fold_left (fun v n =>
       if is_fork (hb_get v n) then v else
       let brs := nth n (by_cr s) [] in
       if existsb (fun a => existsb (fun b => negb (Nat.eqb a b) && negb (is_empty v a) && negb (is_empty v b)
                       && (snd (hb_get v a) <=? fst (hb_get v b)) && (snd (hb_get v b) <=? fst (hb_get v a))) brs) brs
-      then set_fork_creator s v n else v)
+      then set_fork_detected s v n else v)
     (List.seq 0 (nvals s)) v1.
 
 (* DfsSubgraph with LowestAfter.Visit; explicit stack, fuel *)
@@ -93,16 +98,23 @@ Fixpoint dfs_la (fuel : nat) (s : vidx) (me : nat) (sq : N) (stack : list N) (la
   match fuel with O => lam | S f =>
   match stack with
   | [] => lam
-  | w :: rest =>   (* Pop takes from the END in Go (stack); order does not matter for the result *)
+  | w :: rest =>   (* head of the list = top of the Go stack (Pop takes the last pushed) *)
     match alookup w lam with
     | None => dfs_la f s me sq rest lam
     | Some v => if negb (la_get v me =? 0) then dfs_la f s me sq rest lam
                 else let lam' := aput w (la_set v me sq) lam in
                      match alookup w (evs s) with
                      | None => dfs_la f s me sq rest lam'
-                     | Some ev => dfs_la f s me sq (epar ev ++ rest) lam' end
+                     | Some ev => dfs_la f s me sq (rev (epar ev) ++ rest) lam' end
     end
   end end.
+
+(* Fuel: every iteration pops one stack entry; entries are pushed once for the head's parents and
+   once per visited (newly marked) event, so #pops <= |parents e| + sum of all parent-list lengths.
+   proofs/VecDfs.v shows the stack is empty when the fuel below is used (dfs_la_fuel_enough). *)
+Definition total_parents (E : list (N * event)) : nat :=
+  fold_right (fun p acc => (length (epar (snd p)) + acc)%nat) 0%nat E.
+Definition dfs_fuel (s : vidx) (e : event) : nat := S (length (epar e) + total_parents (evs s)).
 
 Definition add (s : vidx) (e : event) : option vidx :=
   let nb0 := nbr s in
@@ -113,7 +125,7 @@ Definition add (s : vidx) (e : event) : option vidx :=
   let after0 := la_set (repeat 0 nb0) me (eseq e) in
   let before1 := fold_left (fun b o => match o with Some pv => collect_from (nbr s1) b pv | None => b end) pvecs before0 in
   let before2 := detect_forks s1 before1 in
-  let lam := dfs_la (S (length (evs s1)) * 8)%nat s1 me (eseq e) (epar e) (la s1) in
+  let lam := dfs_la (dfs_fuel s1 e) s1 me (eseq e) (rev (epar e)) (la s1) in
   Some {| nvals := nvals s1; br_last := br_last s1; br_cr := br_cr s1; by_cr := by_cr s1;
           hb := aput (eid e) before2 (hb s1); la := aput (eid e) after0 lam;
           ebr := aput (eid e) me (ebr s1); evs := aput (eid e) e (evs s1) |}.
@@ -139,3 +151,48 @@ Definition merged (s : vidx) (a : N) : list hbs :=
                                 let x := hb_get av br in if is_fork x then x else if fst hi <? fst x then x else hi) brs (0,0)) (by_cr s)
   else map (fun i => hb_get av i) (List.seq 0 (nvals s)) end.
 
+
+(* ---------- additions (round 2): quorum, crit-aware query, the ForklessCause LRU, Add/Drop protocol ---------- *)
+
+(* pos.Validators.Quorum = TotalWeight*2/3 + 1 *)
+Definition total_weight (ws : list N) : N := fold_left N.add ws 0.
+Definition quorum_of (ws : list N) : N := total_weight ws * 2 / 3 + 1.
+
+(* Index.forklessCause with the crit paths visible: None = crit("Event A/B not found"). *)
+Definition fc_res (ws : list N) (q : N) (s : vidx) (a b : N) : option bool :=
+  match alookup a (hb s), alookup b (la s), alookup b (ebr s) with
+  | Some _, Some _, Some _ => Some (fc ws q s a b)
+  | _, _, _ => None end.
+
+(* simplewlru.Cache as used for cache.ForklessCause: New(uint(n), n), every entry has weight 1,
+   so normalize() evicts from the back while Len() > n.  Most recently used first. *)
+Definition fckey := (N * N)%type.
+Definition fckey_eqb (x y : fckey) : bool := (fst x =? fst y) && (snd x =? snd y).
+Record fcache := { fc_cap : nat; fc_items : list (fckey * bool) }.
+Definition fcache_new (n : nat) : fcache := {| fc_cap := n; fc_items := [] |}.
+Fixpoint fcache_find (k : fckey) (l : list (fckey * bool)) : option bool :=
+  match l with [] => None | (k', v) :: t => if fckey_eqb k k' then Some v else fcache_find k t end.
+Fixpoint fcache_remove (k : fckey) (l : list (fckey * bool)) : list (fckey * bool) :=
+  match l with [] => [] | (k', v) :: t => if fckey_eqb k k' then t else (k', v) :: fcache_remove k t end.
+(* Get: hit moves the entry to the front *)
+Definition fcache_get (k : fckey) (c : fcache) : option bool * fcache :=
+  match fcache_find k (fc_items c) with
+  | Some v => (Some v, {| fc_cap := fc_cap c; fc_items := (k, v) :: fcache_remove k (fc_items c) |})
+  | None => (None, c) end.
+(* Add: existing entry is updated and moved to the front, else pushed to the front; then normalize *)
+Definition fcache_add (k : fckey) (v : bool) (c : fcache) : fcache :=
+  {| fc_cap := fc_cap c; fc_items := firstn (fc_cap c) ((k, v) :: fcache_remove k (fc_items c)) |}.
+Definition fcache_purge (c : fcache) : fcache := {| fc_cap := fc_cap c; fc_items := [] |}.
+
+(* Index.ForklessCause: cache lookup first, else compute and remember. *)
+Definition fc_query (ws : list N) (q : N) (s : vidx) (c : fcache) (a b : N) : bool * fcache :=
+  match fcache_get (a, b) c with
+  | (Some r, c') => (r, c')
+  | (None, _) => let r := fc ws q s a b in (r, fcache_add (a, b) r c) end.
+
+(* The caller protocol of Engine.Add: on success Flush(), on error DropNotFlushed() which
+   discards every write of the failed call (and reloads BranchesInfo): the state is unchanged. *)
+Definition add_or_drop (s : vidx) (e : event) : bool * vidx :=
+  match add s e with Some s' => (true, s') | None => (false, s) end.
+Definition index_all (n : nat) (o : list event) : vidx :=
+  fold_left (fun s e => snd (add_or_drop s e)) o (init n).
